@@ -69,18 +69,31 @@ class _IdleReleaseInternalRunAdapter(BaseInternalRunAdapterDecorator):
             # more, so it must neither be released nor skipped by start-up resume.
             # Cleared before the tick is persisted, so that a persisted tick of a
             # working run is never paired with a stale idle stamp.
-            self._runtime._idle_marked_run_ids.discard(self.run_id)
-            await self._store.update_handler_status(self.run_id, idle_since=None)
+            try:
+                await self._store.update_handler_status(self.run_id, idle_since=None)
+                self._runtime._idle_marked_run_ids.discard(self.run_id)
+            except Exception:
+                # Idle bookkeeping must never end the run; retried on the next tick.
+                logger.exception(
+                    "Failed to clear idle state for run %s", self.run_id
+                )
         await super().on_tick(tick)
 
     @override
     async def write_to_event_stream(self, event: Event) -> None:
         if isinstance(event, WorkflowIdleEvent):
             idle_since = datetime.now(timezone.utc)
-            await self._store.update_handler_status(
-                self.run_id, status="running", idle_since=idle_since
-            )
-            self._runtime._idle_marked_run_ids.add(self.run_id)
+            try:
+                await self._store.update_handler_status(
+                    self.run_id, status="running", idle_since=idle_since
+                )
+                self._runtime._idle_marked_run_ids.add(self.run_id)
+            except Exception:
+                # Idle bookkeeping must never end the run: without the stamp the
+                # run simply stays in memory until it announces idleness again.
+                logger.exception(
+                    "Failed to record idle state for run %s", self.run_id
+                )
         await super().write_to_event_stream(event)
         if isinstance(event, WorkflowIdleEvent):
             self._runtime._spawn_task(self._runtime._deferred_release(self.run_id))
